@@ -168,6 +168,10 @@ def run(repo: Repo, rep: Report, tier: str) -> None:
     _hc2.report(repo, rep, "R09.6", _hc2.dataclass_fields_contract(repo), "mashumaro.core.meta.code.builder::CodeBuilder.dataclass_fields")
     from ..core import siblings as _sib4
     _sib4.check_special_primitive_mirror(repo, rep, "R11.10")
+    from ..core.report import Only as _OnlyX
+    from ..core import corpus as _corpusX
+    from . import c14 as _c14x
+    _c14x.run(repo, _OnlyX(rep, {"R14.1", "R14.1b", "R14.3", "R14.4"}), tier)
 
 REF_ORDER = ["metadata.get(serialization_strategy)", "B.dialect.serialization_strategy.get(ftype)", "B.get_config().dialect.serialization_strategy.get(ftype)",
              "B.get_config().serialization_strategy.get(ftype)", "B.default_dialect.serialization_strategy.get(ftype)"]
@@ -301,3 +305,6 @@ LEVEL_TEXT += _ADD3
 _ADD17 = ' Borrowed: R11.10.'
 EXPLANATION += _ADD17
 LEVEL_TEXT += _ADD17
+_ADD22 = ' Borrowed: R14.1 / R14.3 / R14.4 (lazy stubs recompile the same slot with the same dialects).'
+EXPLANATION += _ADD22
+LEVEL_TEXT += _ADD22
